@@ -414,6 +414,10 @@ func TestFixedSpecs(t *testing.T) {
 		"grammar g;\nRA = /r[<>]/\nCA = /c[;\\]]/\nPA = /p[Ab]/\nQA = /q[BC]/\nSA = /s[ad]/\nTA = /t[bc]/\nUA = /u[ae]/\nVA = /v[bd]/\nWA = /w[\\x21\\x40]/\nXA = /x[\\x20\\x41]/\nstart = RA | CA | PA | QA | SA | TA | UA | VA | WA | XA;\n",
 		// symbols outside the basic plane and outside Unicode (eight-digit escapes), alone in a group and sharing one
 		"grammar g;\nEMO = /\\x0001F600\\x00010000\\x0010FFFF/\nNEG = /a(\\xFFFFFFFF|b)c/\nOUT = /[y\\xFFFFFFFF]z/\nBIG = /\\x00110000|\\x7FFFFFFF|\\x80000000/\nstart = EMO | NEG | OUT | BIG;\n",
+		// symbol groups of one state that interleave (no group is a range), of equal and of different sizes
+		"grammar g;\nEVEN = /[02468]+/\nODD = /[13579]+/\nstart = EVEN | ODD;\n",
+		"grammar g;\nAA = /[acegikmoqsuwy][0-9]/\nBB = /[bdfhjlnprtvxz]x/\nCC = /[AEIOU]+/\nDD = /[BCDFGHJKLMNPQRSTVWXYZ]y/\nstart = AA | BB | CC | DD;\n",
+		"grammar g;\nLO = /[\\x0430\\x0432\\x0434\\x0436]/\nHI = /[\\x0431\\x0433\\x0435\\x0437]z/\nstart = LO | HI | \"\\x\";\n",
 		// classes with hundreds and thousands of symbols: long groups and long lines in the emitted transition function
 		"grammar g;\nGREEK = /\\p{Greek}+/\nUP = /\\p{Lu}x/\nID = /[a-z]+/\nstart = GREEK | UP | ID;\n",
 		"grammar g;\nHAN = /[\\x4E00-\\x9FFF]+/\nHANGUL = /[\\xAC00-\\xD7A3]/\nstart = HAN | HANGUL | \"x\";\n",
